@@ -21,6 +21,6 @@ def stepOrderPaired : List String := ["RestFileWriter", "InfoFileWriter", "Wildc
 
 /-- unconditional cuts: (`-u` values as given (paired: also given as `-U`), cuts applied single-end, paired-end to R1, to R2), each
     observed from what the assembled modifiers remove from a probe read, in pipeline order -/
-def cutOrder : List (List Int × List Int × List Int × List Int) := [([(-3), 5], [5, (-3)], [5, (-3)], [5, (-3)]), ([5, (-3)], [5, (-3)], [5, (-3)], [5, (-3)]), ([4], [4], [4], [4]), ([(-2)], [(-2)], [(-2)], [(-2)]), ([0, 4], [4], [4], [4]), ([(-2), 0], [(-2)], [(-2)], [(-2)]), ([0], [], [], []), ([7, (-1)], [7, (-1)], [7, (-1)], [7, (-1)]), ([(-1), 7], [7, (-1)], [7, (-1)], [7, (-1)])]
+def cutOrder : List (List Int × List Int × List Int × List Int) := [([(-3), 5], [(-3), 5], [(-3), 5], [(-3), 5]), ([5, (-3)], [5, (-3)], [5, (-3)], [5, (-3)]), ([4], [4], [4], [4]), ([(-2)], [(-2)], [(-2)], [(-2)]), ([0, 4], [4], [4], [4]), ([(-2), 0], [(-2)], [(-2)], [(-2)]), ([0], [], [], []), ([7, (-1)], [7, (-1)], [7, (-1)], [7, (-1)]), ([(-1), 7], [(-1), 7], [(-1), 7], [(-1), 7])]
 
 end Cutadapt.Generated
